@@ -31,6 +31,20 @@ Proof.
     rewrite !app_nil_r in H. rewrite app_nil_r in H || idtac. apply H. repeat constructor. discriminate.
 Qed.
 
+(* exports are pure: after any history of exports the flow is unchanged, and every output is the output of that
+   exporter on the initial flow (so a raw export after curl/httpie exports reads back as the captured request) *)
+Theorem exports_pure v p a s fs :
+  snd (export_history v p a s fs) = s
+  /\ fst (export_history v p a s fs) = map (fun f => fst (export_step v p a s f)) fs.
+Proof.
+  induction fs as [|f fs IH]; [split; reflexivity|].
+  cbn [export_history map].
+  assert (E : export_step v p a s f = (fst (export_step v p a s f), s)) by reflexivity.
+  rewrite E at 1 2. clear E.
+  destruct (export_history v p a s fs) as [os s2]. cbn [fst snd] in *. destruct IH as [IH1 IH2]. subst.
+  split; reflexivity.
+Qed.
+
 (* a missing body is an error, never a truncated export *)
 Lemma raw_request_missing_content r t : raw_request r None t = OtherError.
 Proof. reflexivity. Qed.
